@@ -15,7 +15,7 @@ func TestMain(m *testing.M) { vk.Main(m) }
 // called with every argument in Args (several calls catch state kept between calls).
 type Scenario struct {
 	N      int     `json:"n"`
-	Family string  `json:"family"` // "trace" | "affine" | "table" | "anynil"
+	Family string  `json:"family"` // "trace" | "affine" | "table" | "anynil" | "reentrant"
 	A      []int   `json:"a"`      // affine: x -> (A*x+B) mod P ; trace: tag index
 	B      []int   `json:"b"`
 	Table  [][]int `json:"table,omitempty"` // table family: f_i(x) = Table[i][x mod M]
@@ -27,11 +27,14 @@ const tableM = 7
 
 func gen(t *rapid.T) Scenario {
 	sc := Scenario{N: rapid.IntRange(2, 20).Draw(t, "n")}
-	sc.Family = rapid.SampledFrom([]string{"trace", "affine", "table", "anynil"}).Draw(t, "family")
+	sc.Family = rapid.SampledFrom([]string{"trace", "affine", "table", "anynil", "reentrant"}).Draw(t, "family")
 	sc.Args = rapid.SliceOfN(rapid.IntRange(0, prime-1), 1, 3).Draw(t, "args")
+	if rapid.IntRange(0, 2).Draw(t, "repeatArg") == 0 {
+		sc.Args = append(sc.Args, sc.Args[len(sc.Args)-1]) // the same argument twice in a row
+	}
 	for i := 0; i < sc.N; i++ {
 		switch sc.Family {
-		case "trace", "anynil":
+		case "trace", "anynil", "reentrant":
 			sc.A = append(sc.A, rapid.IntRange(0, 25).Draw(t, "tag"))
 		case "affine":
 			sc.A = append(sc.A, rapid.IntRange(2, prime-1).Draw(t, "a"))
@@ -66,6 +69,53 @@ func Run(sc Scenario) string {
 			for i, c := range calls {
 				if c != k+1 {
 					return fmt.Sprintf("call %d: f_%d was applied %d times in total, want %d", k, i+1, c, k+1)
+				}
+			}
+		}
+	case "reentrant":
+		// one stage (position A[0] mod N) calls the composed function itself once while the outer call is in flight
+		at := sc.A[0] % sc.N
+		tags := make([]string, sc.N)
+		for i := range tags {
+			tags[i] = "<" + strconv.Itoa(i) + string(rune('a'+sc.A[i])) + ">"
+		}
+		var h func(string) string
+		depth := 0
+		fs := make([]func(string) string, sc.N)
+		for i := range fs {
+			fs[i] = func(s string) string {
+				calls[i]++
+				if i == at && depth == 0 {
+					depth++
+					inner := h("in")
+					depth--
+					return s + "(" + inner + ")" + tags[i]
+				}
+				return s + tags[i]
+			}
+		}
+		h = compose(fs)
+		plain := func(a string) string {
+			for i := range tags {
+				a += tags[i]
+			}
+			return a
+		}
+		for k, a := range sc.Args {
+			got := h(strconv.Itoa(a))
+			want := strconv.Itoa(a)
+			for i := range tags {
+				if i == at {
+					want += "(" + plain("in") + ")"
+				}
+				want += tags[i]
+			}
+			if got != want {
+				return fmt.Sprintf("call %d: Pipe%d with stage %d re-entering the composed function: got %q, want %q", k, sc.N, at+1, got, want)
+			}
+			for i, c := range calls {
+				if c != 2*(k+1) {
+					return fmt.Sprintf("call %d: f_%d was applied %d times in total, want %d (outer and re-entrant inner call)", k, i+1, c, 2*(k+1))
 				}
 			}
 		}
@@ -154,7 +204,7 @@ func nontrivial(sc Scenario) bool {
 	for i := 0; i < sc.N; i++ {
 		var k string
 		switch sc.Family {
-		case "trace", "anynil":
+		case "trace", "anynil", "reentrant":
 			k = "t" // trace tags carry the position, always distinct
 			k += strconv.Itoa(i)
 		case "affine":
@@ -192,8 +242,8 @@ func FuzzC20(f *testing.F) {
 // TestC20Each covers every N with every family deterministically (no N can be missed by chance).
 func TestC20Each(t *testing.T) {
 	for n := 2; n <= 20; n++ {
-		for _, fam := range []string{"trace", "affine", "table", "anynil"} {
-			sc := Scenario{N: n, Family: fam, Args: []int{3, 999983, 4}}
+		for _, fam := range []string{"trace", "affine", "table", "anynil", "reentrant"} {
+			sc := Scenario{N: n, Family: fam, Args: []int{3, 999983, 4, 4}}
 			for i := 0; i < n; i++ {
 				sc.A = append(sc.A, 2+i)
 				sc.B = append(sc.B, 1+2*i)
